@@ -11,6 +11,11 @@ import json, os, shutil, subprocess, sys, tempfile, time
 
 VERIF = os.path.dirname(os.path.dirname(os.path.abspath(__file__)))
 ALL = [f"C{i:02d}" for i in range(1, 19)]
+# checks whose anchors overlap with the property's (the ones a change written for it is most likely to trip as well)
+RELATED = {"C01": ["C11", "C12", "C09"], "C02": ["C14", "C05", "C07"], "C03": ["C16", "C10", "C12"], "C04": ["C03", "C12", "C09"], "C05": ["C02", "C14", "C13"],
+           "C06": ["C07", "C08", "C11"], "C07": ["C06", "C02", "C14"], "C08": ["C06", "C07"], "C09": ["C12", "C01", "C15"], "C10": ["C03", "C12", "C11"],
+           "C11": ["C01", "C17", "C06"], "C12": ["C15", "C09", "C03"], "C13": ["C05", "C14"], "C14": ["C02", "C13"], "C15": ["C12", "C09"], "C16": ["C03", "C10"],
+           "C17": ["C11", "C01"], "C18": []}  # fmt: skip
 
 
 def sh(cmd, cwd, env, timeout=1800):
@@ -25,7 +30,7 @@ def main():
     keep = None
     if "--checks" in a:
         v = a[a.index("--checks") + 1]
-        checks = ALL if v == "ALL" else v.split(",")
+        checks = ALL if v == "ALL" else ([pid] + RELATED[pid] if v == "RELATED" else v.split(","))
     if "--keep-as" in a:
         keep = a[a.index("--keep-as") + 1]
     patch = os.path.join(out_dir, f"change{letter}.diff")
